@@ -30,6 +30,37 @@ struct Univ {
     reqs: Vec<(Request, String, String)>, // request, host, lower-cased url
 }
 
+/// Universe for patterns whose literals are regex metacharacters (`+ ( [ ? $ .`): every path over
+/// {a + ( [ ?} up to length 3 on one host.
+fn meta_universe() -> Univ {
+    let alpha = ['a', '+', '(', '[', '?', '.'];
+    let mut paths: Vec<String> = vec![String::new()];
+    let mut frontier = vec![String::new()];
+    for _ in 0..3 {
+        let mut nf = vec![];
+        for p in &frontier {
+            for c in alpha {
+                let mut s = p.clone();
+                s.push(c);
+                nf.push(s);
+            }
+        }
+        paths.extend(nf.iter().cloned());
+        frontier = nf;
+    }
+    let mut reqs = vec![];
+    for p in paths {
+        let u = format!("https://a.b/{}", p);
+        if let Ok(rq) = Request::new(&u, "https://zz.zz/", "script") {
+            let lower = rq.url.to_ascii_lowercase();
+            if lower == u {
+                reqs.push((rq, "a.b".to_string(), lower));
+            }
+        }
+    }
+    Univ { reqs }
+}
+
 fn universe() -> Univ {
     let hosts = ["a.b", "b.a.b", "ab.b", "a.b.a.b", "ba.b", "a.b.b"];
     let paths = ["/", "/a", "/a/b", "/ab.a", "/b?a=b", "/a.b/a", "/a/", "/b/a.b", "/a-b", "/b^a"];
@@ -108,6 +139,8 @@ fn classify(anchor: Anchor, rule_host: &str, got: bool, exp: bool, url: &str, re
 pub fn run(ctx: &mut Ctx) {
     let univ = universe();
     exhaustive(ctx, &univ);
+    let meta = meta_universe();
+    exhaustive_meta(ctx, &meta);
     weakening(ctx, &univ);
     random(ctx);
     scheme(ctx);
@@ -158,6 +191,50 @@ fn exhaustive(ctx: &mut Ctx, univ: &Univ) {
                 String::from_utf8_lossy(&alpha), maxlen, ctx.shard, ctx.nshards, total, RULE_HOSTS, univ.reqs.len()
             ));
         }
+    }
+}
+
+/// Patterns whose literal characters are regex metacharacters.
+fn exhaustive_meta(ctx: &mut Ctx, univ: &Univ) {
+    let sub = "meta";
+    let alpha = b"a+([?.*^".to_vec();
+    let maxlen = if ctx.quick() { 4 } else { 5 };
+    let total = count_bodies(alpha.len(), maxlen);
+    let mut complete = true;
+    for k in 0..total {
+        if ctx.stop() {
+            complete = false;
+            break;
+        }
+        if !ctx.begin_case(sub, k) {
+            continue;
+        }
+        let body = nth_body(k, &alpha);
+        let r = guarded(|| exhaustive_body(&body, univ));
+        match r {
+            Err(sig) => ctx.violation(sub, k, &format!("C02:{}", sig), json!({"body": body})),
+            Ok(out) => {
+                ctx.evals(out.evals);
+                ctx.obs("meta_reference_matches", out.matches as i64);
+                ctx.obs("meta_lines_checked", out.lines as i64);
+                for h in out.nt {
+                    ctx.nontrivial(h);
+                }
+                if let Some(s) = out.sample {
+                    ctx.sample_tagged("meta", || s);
+                }
+                for (sig, detail) in out.viol {
+                    ctx.violation(sub, k, &sig, detail);
+                }
+            }
+        }
+    }
+    if complete && ctx.only_case.is_none() {
+        ctx.report.exhaustive.push(format!(
+            "all pattern bodies over the regex-metacharacter alphabet \"a+([?.*^\" up to length {} x 6 anchors x rule hosts x {} URLs whose paths range over {{a + ( [ ? .}}^<=3 (this shard's share)",
+            maxlen,
+            univ.reqs.len()
+        ));
     }
 }
 
@@ -372,7 +449,11 @@ fn gen_pattern(r: &mut Rng) -> (Anchor, String, String) {
             if i > 0 {
                 body.push_str(r.ps(&["/", ".", "-", "_", "*", "^", "?", "=", "&", "*", "^", "/"]));
             }
-            body.push_str(r.ps(gen::TOK));
+            if r.chance(1, 6) {
+                body.push_str(r.ps(&["a+b", "c(d", "e[f", "g{h", "i)j", "k]l", "1+1", "x!y", "p'q", "m,n", "s;t", "u@v", "w~z", "%2b", "q++"]));
+            } else {
+                body.push_str(r.ps(gen::TOK));
+            }
         }
         if r.chance(1, 4) {
             body.push_str(r.ps(&["/", "^", ".", "?", "="]));
